@@ -21,7 +21,7 @@ META = {
         "R10.2": "panic-site audit (A8) over the recombinators and Bitstring's Crossover impl",
         "R10.3": "two-point cut points are drawn from 0..=len (inclusive upper bound = genome length)",
         "R10.4": "cut points ordered before exactly one exchange on first..second, same range on both parents, returns the first parent",
-        "R10.5": "UniformXo: one random::<bool>() per position; gene at the same position from either parent",
+        "R10.5": "UniformXo: one random::<bool>() per position; gene at the same position from either parent; UniformXo<G> returns the child only when 0..len is exhausted",
         "R10.6": "Bitstring::crossover_gene / crossover_segment: same index/range on both sides, exactly one swap and no other in-place operation on the gene vectors, errors carry the address and size",
     },
     "trusted_base": ["rand 0.9 Rng::random_range (uniform over the given range, panics iff empty), Rng::random::<bool>()", "std slice::swap_with_slice / get_mut / mem::swap", "uecfacts driver + uecheck rule engine"],
@@ -176,6 +176,8 @@ def check_two_point(ctx, fid, kind):
 
 
 def check(ctx):
+    from .common import shadowing_audit
+    ctx.floor('R10.6', shadowing_audit(ctx, 'R10.6', ('ec_core::operator::recombinator::', 'ec_linear::recombinator::', 'ec_linear::genome::Linear', 'ec_core::genome::Genome')), 6, 'Recombinator / Crossover / Linear impls of workspace types (shadowing audit)')
     F = ctx.F
     check_two_point(ctx, TP + R % "[std::vec::Vec<T>; 2]", "Vec")
     check_two_point(ctx, TP + R % "[G; 2]", "G")
@@ -335,6 +337,11 @@ def check_uniform(ctx):
                 ctx.check(len(coin) == 1 and len(dr) == 1, "R10.5", "UniformXo<G>/no-exchange-when-coin-false", cond_str(p)[:200], f.at())
             if p.end == "return" and not is_err_return(p):
                 ctx.check(match(p.ret, Agg("Result::Ok", lambda e: e == G(0))), "R10.4", "UniformXo<G>/child-is-first-parent", short(p.ret), f.at())
+                # every position gets its coin: the child is returned only once 0..len has run out, never from inside an iteration
+                lp = [cc for cc in p.conds if cc[0][0] == "discr" and callee_is(cc[0][1], "Iterator::next") and
+                      match(cc[0][1][3][0], Through(Call("IntoIterator::into_iter", Agg("Range::Range", Const(0), lambda e: is_len_of(e, 0)))))]
+                ctx.check(bool(lp) and all(cc[1] == 0 for cc in lp), "R10.5", "UniformXo<G>/position-loop-left-only-when-exhausted", cond_str(p)[-160:], f.at(),
+                          bad_detail="the child is returned from inside an iteration of the 0..len loop (positions after it never get their coin): [%s]" % cond_str(p)[-300:])
         ctx.floor("R10.5", n_x, 1, "UniformXo<G> exchange sites")
 
     def g_try_for_each(ctx):
